@@ -29,7 +29,7 @@ Print Assumptions C10_record_fields.
 (* the string layer on its own: escaping is inverted by the reader for every well-formed string *)
 Theorem C10_escape_roundtrip : forall s, valid_utf8 s = true -> forall rest,
   unescape (escape s ++ String c_dq rest) = Some (s, rest).
-Proof. intros s H. apply unescape_escape. apply valid_utf8_Utf8. exact H. Qed.
+Proof. exact escape_roundtrip_valid. Qed.
 Print Assumptions C10_escape_roundtrip.
 
 (* Decision table.  The columns object has exactly one member per entry of Pr.Columns (distinct
@@ -50,13 +50,13 @@ Theorem C10_decision_table : forall nomo c, NoDup (map fst (ch_cols c)) ->
         col_decision nomo op v oldv = if nomo then DNew v else DBoth v o) /\
      (forall o, op <> "DELETE" -> oldv = Some o -> cv_value v <> cv_value o -> cv_value v = toast_marker ->
         col_decision nomo op v oldv = if nomo then DNew o else DBoth o o)).
-Proof. intros nomo c H. split; [exact (tree_columns_spec nomo c H)|intros; apply decision_rows]. Qed.
+Proof. exact decision_table_full. Qed.
 Print Assumptions C10_decision_table.
 
 (* LSN: the standard form for the whole 64-bit range, proved by induction on the digits *)
 Theorem C10_lsn : forall w, (w < 2 ^ 64)%N ->
   parse_lsn (fmt_lsn w) = Some w /\ canonical_lsn (fmt_lsn w) = true.
-Proof. intros w H. split; [exact (parse_fmt_lsn w H)|exact (canonical_fmt_lsn w)]. Qed.
+Proof. exact lsn_full. Qed.
 Print Assumptions C10_lsn.
 
 (* time: the RFC 3339 UTC string denotes the instant of ServerTime (whole seconds, floor; so also
@@ -173,8 +173,14 @@ Example C10_history_nonvacuous :
   p_vals (snd (render_with_pool false ex_pool [3; 0; 1; 9; 0] ex_change)) <> p_vals ex_pool.
 Proof.
   split; [|split; [vm_compute; reflexivity|vm_compute; discriminate]].
-  split.
-  - repeat constructor; simpl; intuition (try discriminate; auto).
+  assert (K : forall m : vmap, NoDup (map fst m) ->
+              forallb (fun k => String.eqb k "v" || String.eqb k "t" || String.eqb k "q") (map fst m) = true ->
+              vkeys_ok m).
+  { intros m Hn Hk. split; [exact Hn|]. rewrite forallb_forall in Hk. intros k Hin. specialize (Hk k Hin).
+    repeat (apply orb_true_iff in Hk as [Hk|Hk]); apply String.eqb_eq in Hk; auto. }
+  split; simpl.
+  - repeat (apply Forall_cons; [apply K; [repeat constructor; simpl; intuition discriminate|reflexivity]|]).
+    apply Forall_nil.
   - repeat constructor.
 Qed.
 
